@@ -77,7 +77,7 @@ _REF = None
 def budget(tier):
     if tier == "thorough":
         return {"runs": 12000, "wall": 1500, "chunk": 4, "minimise_s": 120}
-    return {"runs": 700, "wall": 150, "chunk": 4, "minimise_s": 45}
+    return {"runs": 700, "wall": 250, "chunk": 4, "minimise_s": 45}
 
 
 def variants_for(entry):
